@@ -106,7 +106,12 @@ example :
   simp [zLocal, sightLocal, sight, raised, up, vsub, E3.inverse, frame_eq]
 
 /-- the vector covariance is used as given (an XYZ covariance, no rotation): the block handed to
-    `Adj` is the cluster's packed covariance divided by the a priori variance -/
+    `Adj` is the cluster's packed covariance divided by the a priori variance.
+    Definitional (a transliteration tie of `C /= apriori_sd²`, compared bit for bit by the xml stream), not a
+    specification.  What makes "unrotated" correct is `C19_coeff_is_derivative_vector` + `C19_vector_one_step`:
+    the three rows of a vector are the ECEF components of `to − from`, so the residuals `A x − b` of these rows
+    are ECEF residuals and their weight is the inverse of the ECEF covariance; only the unknowns are in n-e-u.
+    The composition into one statement about the normal equations (LS layer) is not done (see report). -/
 theorem C19_vector_cov_unrotated (sd : ℝ) (c : List ℝ) :
     @cofactorBlock ℝ realScalar sd c = c.map (fun v => v / (sd * sd)) := by
   unfold cofactorBlock
@@ -272,7 +277,10 @@ theorem C19_index_bijective {ι : Type} [DecidableEq ι] (P : Points ι) (obs : 
   · exact (index_range inv hq).2
 
 /-- `redundancy = dm_rows − dm_cols + defect` as coded in `Model::update_adjustment`;
-    with `defect = dm_cols − rank A` (C01/C20 for `Adj::defect`) this is `dm_rows − rank A` (LS10). -/
+    with `defect = dm_cols − rank A` (C01/C20 for `Adj::defect`) this is `dm_rows − rank A` (LS10).
+    Definitional (transliteration tie of that one line); the statement `redundancy = rows − rank` of the assembled
+    matrix needs the assembly of the generated rows into a matrix and LS10 — not done; the end-to-end oracle
+    compares the reported redundancy / defect with an independent Jacobian rank on every network. -/
 theorem C19_redundancy_defect {ι : Type} [DecidableEq ι] (b : Book ι) (defect : Nat) :
     redundancy b defect + (b.idx.cols : Int) = (b.rows : Int) + (defect : Int) :=
   redundancy_eq b defect
